@@ -17,7 +17,11 @@ import (
 )
 
 // bitset over roots and local allocations of one function.
-type bits []uint64
+type Bits []uint64
+type bits = Bits
+
+func (b Bits) Has(i int) bool { return b.has(i) }
+func (b Bits) Empty() bool    { return b.empty() }
 
 func (b bits) has(i int) bool { return i/64 < len(b) && b[i/64]&(1<<(uint(i)%64)) != 0 }
 func (b *bits) set(i int) bool {
@@ -69,7 +73,7 @@ type Summary struct {
 	NParams   int
 	NRoots    int         // params + freevars + 1 (globals)
 	Writes    [][]Site    // per root: sites that may write through it
-	RetAlias  []bits      // per result index: roots the result may alias
+	RetAlias  []Bits      // per result index: roots the result may alias
 	RetFresh  []bool      // per result: only fresh allocations / constants flow to it
 	Undecided []Site      // calls with unknown effects on tainted arguments
 	Forbidden []Site      // go statements, channel ops, map range, unsafe, forbidden packages
@@ -85,6 +89,10 @@ type Analysis struct {
 	Funcs   []*ssa.Function
 	Sum     map[*ssa.Function]*Summary
 	callees map[ssa.CallInstruction][]*ssa.Function
+	// ReflectCallTargets: if non-nil, (reflect.Value).Call is modelled as a call
+	// of any of these methods on its receiver (the client has verified that the
+	// only reflective call is MethodByName("String").Call(nil)).
+	ReflectCallTargets []*ssa.Function
 }
 
 func hasPointers(t types.Type) bool {
@@ -114,8 +122,32 @@ func hasPointers(t types.Type) bool {
 }
 
 // New computes summaries for funcs to a fixpoint.
-func New(pkg *ssa.Package, funcs []*ssa.Function, cg *callgraph.Graph) *Analysis {
-	a := &Analysis{Pkg: pkg, Funcs: funcs, Sum: map[*ssa.Function]*Summary{}, callees: map[ssa.CallInstruction][]*ssa.Function{}}
+func New(pkg *ssa.Package, funcs []*ssa.Function, cg *callgraph.Graph, reflectTargets []*ssa.Function) *Analysis {
+	a := &Analysis{Pkg: pkg, Sum: map[*ssa.Function]*Summary{}, callees: map[ssa.CallInstruction][]*ssa.Function{}, ReflectCallTargets: reflectTargets}
+	// add the synthetic wrappers / bound-method thunks of the package's methods
+	// that the call graph knows (interface calls resolve to them)
+	funcs = append([]*ssa.Function(nil), funcs...) // never modify the caller's slice
+	seen := map[*ssa.Function]bool{}
+	for _, fn := range funcs {
+		seen[fn] = true
+	}
+	for fn := range cg.Nodes {
+		if fn == nil || seen[fn] || len(fn.Blocks) == 0 || fn.Synthetic == "" {
+			continue
+		}
+		if recv := fn.Signature.Recv(); recv != nil {
+			t := recv.Type()
+			if p, ok := t.(*types.Pointer); ok {
+				t = p.Elem()
+			}
+			if n, ok := t.(*types.Named); ok && n.Obj().Pkg() == pkg.Pkg {
+				funcs = append(funcs, fn)
+				seen[fn] = true
+			}
+		}
+	}
+	sort.SliceStable(funcs, func(i, j int) bool { return funcs[i].String() < funcs[j].String() })
+	a.Funcs = funcs
 	for _, fn := range funcs {
 		if n := cg.Nodes[fn]; n != nil {
 			for _, e := range n.Out {
@@ -182,6 +214,9 @@ type fnState struct {
 	nAlloc  int
 	// unknownFresh: value may come from somewhere that is neither a root nor a local allocation (external call result)
 	ext map[ssa.Value]bool
+	// per-component facts of tuple-valued calls
+	tup    map[ssa.Value][]bits
+	tupExt map[ssa.Value][]bool
 }
 
 func (st *fnState) t(v ssa.Value) bits {
@@ -208,7 +243,8 @@ func (st *fnState) add(v ssa.Value, b bits) bool {
 
 func (a *Analysis) analyze(fn *ssa.Function) *Summary {
 	sum := newSummary(fn)
-	st := &fnState{a: a, fn: fn, sum: sum, taint: map[ssa.Value]bits{}, allocID: map[ssa.Value]int{}, ext: map[ssa.Value]bool{}}
+	st := &fnState{a: a, fn: fn, sum: sum, taint: map[ssa.Value]bits{}, allocID: map[ssa.Value]int{}, ext: map[ssa.Value]bool{},
+		tup: map[ssa.Value][]bits{}, tupExt: map[ssa.Value][]bool{}}
 	if len(fn.Blocks) == 0 {
 		return sum
 	}
@@ -338,6 +374,14 @@ func (st *fnState) flow(in ssa.Instruction) bool {
 		return st.add(v, st.t(v.X))
 	case *ssa.Extract:
 		if hasPointers(v.Type()) {
+			if tb, ok := st.tup[v.Tuple]; ok && v.Index < len(tb) {
+				ch := st.add(v, tb[v.Index])
+				if st.tupExt[v.Tuple][v.Index] && !st.ext[v] {
+					st.ext[v] = true
+					ch = true
+				}
+				return ch
+			}
 			ch := st.add(v, st.t(v.Tuple))
 			if st.ext[v.Tuple] && !st.ext[v] {
 				st.ext[v] = true
@@ -441,6 +485,28 @@ func (st *fnState) flowCall(v *ssa.Call, c *ssa.CallCommon) bool {
 	fns, unknown := st.calleesOf(v)
 	args := argsOf(c)
 	ch := false
+	nres := 1
+	if tt, ok := v.Type().(*types.Tuple); ok {
+		nres = tt.Len()
+	}
+	if _, ok := st.tup[v]; !ok {
+		st.tup[v] = make([]bits, nres)
+		st.tupExt[v] = make([]bool, nres)
+	}
+	addRes := func(ri int, b bits) {
+		if ri >= nres {
+			return
+		}
+		if st.tup[v][ri].or(b) {
+			ch = true
+		}
+	}
+	setExt := func(ri int) {
+		if ri < nres && !st.tupExt[v][ri] {
+			st.tupExt[v][ri] = true
+			ch = true
+		}
+	}
 	local := 0
 	for _, f := range fns {
 		s := st.a.Sum[f]
@@ -449,7 +515,6 @@ func (st *fnState) flowCall(v *ssa.Call, c *ssa.CallCommon) bool {
 			continue
 		}
 		local++
-		// results alias args per summary
 		for ri := range s.RetAlias {
 			for k := 0; k < s.NRoots; k++ {
 				if !s.RetAlias[ri].has(k) {
@@ -457,24 +522,17 @@ func (st *fnState) flowCall(v *ssa.Call, c *ssa.CallCommon) bool {
 				}
 				switch {
 				case k < s.NParams && k < len(args):
-					if st.add(v, st.t(args[k])) {
-						ch = true
-					}
+					addRes(ri, st.t(args[k]))
 				case k == s.GlobalRoot():
 					var b bits
 					b.set(st.sum.GlobalRoot())
-					if st.add(v, b) {
-						ch = true
-					}
+					addRes(ri, b)
 				default: // callee free variable: bindings of the closure value
-					if st.add(v, st.t(c.Value)) {
-						ch = true
-					}
+					addRes(ri, st.t(c.Value))
 				}
 			}
-			if !s.RetFresh[ri] && !st.ext[v] {
-				st.ext[v] = true
-				ch = true
+			if !s.RetFresh[ri] {
+				setExt(ri)
 			}
 		}
 	}
@@ -483,20 +541,27 @@ func (st *fnState) flowCall(v *ssa.Call, c *ssa.CallCommon) bool {
 		// except for the trusted fresh-result functions.
 		name := calleeName(fns, c)
 		if !freshExternal(name) {
-			for _, x := range args {
-				if st.add(v, st.t(x)) {
-					ch = true
+			for ri := 0; ri < nres; ri++ {
+				for _, x := range args {
+					addRes(ri, st.t(x))
+				}
+				if !c.IsInvoke() {
+					addRes(ri, st.t(c.Value))
+				}
+				if !aliasOnlyExternal(name) {
+					setExt(ri)
 				}
 			}
-			if !c.IsInvoke() {
-				if st.add(v, st.t(c.Value)) {
-					ch = true
-				}
-			}
-			if !aliasOnlyExternal(name) && !st.ext[v] {
-				st.ext[v] = true
-				ch = true
-			}
+		}
+	}
+	// the call value itself: union (used when not extracted, i.e. single result)
+	for ri := 0; ri < nres; ri++ {
+		if st.add(v, st.tup[v][ri]) {
+			ch = true
+		}
+		if st.tupExt[v][ri] && !st.ext[v] {
+			st.ext[v] = true
+			ch = true
 		}
 	}
 	return ch
@@ -764,6 +829,18 @@ func (st *fnState) externalEffects(in ssa.CallInstruction, c *ssa.CallCommon, na
 		}
 		return
 	case nonWritingExternal(name):
+		return
+	case name == "(reflect.Value).Call" && st.a.ReflectCallTargets != nil:
+		if len(args) >= 1 {
+			r := rootsOnly(st.t(args[0]), st.sum.NRoots)
+			for _, tgt := range st.a.ReflectCallTargets {
+				if s := st.a.Sum[tgt]; s != nil && s.WritesThrough(0) && !r.empty() {
+					w := site("reflective call of " + tgt.String() + ", which writes through its receiver")
+					w.Callee = tgt
+					st.write(r, w)
+				}
+			}
+		}
 		return
 	case strings.HasPrefix(name, "(reflect.Value).Set") || name == "(reflect.Value).Call":
 		if len(args) >= 1 {
